@@ -77,13 +77,17 @@ def _on_alarm(signum, frame):
     raise _Timeout()
 
 
+LONG_CPU_LIMIT = 120.0   # for inputs longer than 200 (the quadratic maps need ~1.5 s at n = 1000)
+
+
 def _guarded_call(fn, *args, **kw):
     """Run one library call under a CPU-time watchdog (ITIMER_VIRTUAL counts only the CPU time
     this process gets, so a loaded machine cannot trigger it).  A call that does not return is an
     observation about the code (e.g. a pass counter whose loop never reaches the identity)."""
     import signal
     old = signal.signal(signal.SIGVTALRM, _on_alarm)
-    signal.setitimer(signal.ITIMER_VIRTUAL, CALL_CPU_LIMIT)
+    big = any(hasattr(a, "__len__") and len(a) > 200 for a in args)
+    signal.setitimer(signal.ITIMER_VIRTUAL, LONG_CPU_LIMIT if big else CALL_CPU_LIMIT)
     try:
         return fn(*args, **kw)
     finally:
@@ -574,7 +578,7 @@ def shard_deep(shard):
 # costs passes x one operator call; the operator itself is checked on every shape anyway).
 
 COUNT_CAP = 12
-SCALE_CPU_LIMIT = 20.0
+SCALE_CPU_LIMIT = 60.0
 
 
 def _coprime_ks(n):
